@@ -592,3 +592,53 @@ def selection_switch_rule(prog, chk, rule, file_filter, floor_n):
                    "selection is consulted when the caller asked to ignore it and ignored when asked to honour it" % max(n - 1, 0),
                    key="%s|%s|%s" % (rule, f.name, show(x)[:40]), nontrivial=not ok)
     chk.floor(rule, n, floor_n)
+
+
+AGGREGATES = ("normalScore", "mean", "variance", "stdv", "minimum", "maximum", "median", "quantiles", "correlation", "cumul", "norm", "range")
+
+
+def aggregate_selection_rule(prog, chk, rule, floor_n):
+    """a column handed to an aggregate of VectorHelper (ranks, mean, extrema ...) is fetched WITH the selection: `useSel` is true or the
+    caller's own `useSel` parameter, never left to its default (false).  The normal score transform ranked the masked samples with the
+    others: the scores of the active samples depended on the masked values."""
+    def strip(e):
+        while e is not None and e["k"] in ("Cast", "Paren") and e.get("c"):
+            e = e["c"][0]
+        return e
+    n = 0
+    for f in sorted(prog.funcs, key=lambda x: (x.file, x.line)):
+        if f.body is None:
+            continue
+        cols = {}
+        for x in f.walk():
+            if x["k"] == "VarDecl" and x.get("c") and x["c"][0] is not None:
+                c = strip(x["c"][0])
+                if c is not None and c["k"] == "MCall" and (c.get("cls") or "").startswith("Db") and \
+                        (c.get("callee") or "").split("::")[-1] in ("getColumnByLocator", "getColumn", "getColumnByUID", "getColumnByColIdx", "getColumnsByLocator"):
+                    cols[x["d"]] = (x["n"], c)
+        if not cols:
+            continue
+        for x in f.walk():
+            if x["k"] not in ("Call", "MCall") or not (x.get("callee") or "").startswith("VectorHelper::") or (x.get("callee") or "").split("::")[-1] not in AGGREGATES:
+                continue
+            for a in call_args(x):
+                a = strip(a)
+                if a is None or a["k"] != "DeclRefExpr" or a.get("d") not in cols:
+                    continue
+                name, c = cols[a["d"]]
+                args = call_args(c)
+                cal = [g for g in prog.fns(c.get("callee") or "") if len(g.params) == len(args)]
+                us = None
+                for k, p_ in enumerate(cal[0].params if cal else []):
+                    if p_["n"] == "useSel":
+                        us = args[k]
+                if us is None:
+                    continue
+                n += 1
+                u = strip(us)
+                ok = not (us["k"] == "DefaultArg" or (u is not None and u["k"] == "Bool" and not u.get("v")))
+                chk.analysed(f)
+                chk.ob(rule, "%s: `%s`, handed to VH::%s, is fetched with the selection" % (f.name, name, (x.get("callee") or "").split("::")[-1]), f.loc(c), ok,
+                       detail=None if ok else "`%s` leaves useSel to false: the masked samples take part in the %s" % (show(c)[:50], (x.get("callee") or "").split("::")[-1]),
+                       key="%s|%s|%s" % (rule, f.name, name))
+    chk.floor(rule, n, floor_n)
